@@ -19,13 +19,12 @@ def firstFree (avail : List Int) : Option Nat := (List.range avail.length).find?
 def assign (fails : List (Nat × Nat)) : World → List Nat → List Int → List Asg → Except SErr (World × List Nat × List Asg)
   | w, [], _, acc => .ok (w, [], acc)
   | w, r :: rest, avail, acc =>
-    let pid := w.store.pidOf r
-    if getFail fails pid ≥ maxFailures then assign fails w rest avail acc
+    if getFail fails (w.store.pidOf r) ≥ maxFailures then assign fails w rest avail acc
     else if !(assignable.contains (w.store.stOf r)) then .error (.schedAssert, w)
     else match firstFree avail with
       | none => .ok (w, r :: rest, acc)
       | some k =>
-        match mkA w [r] 1 (w.pools.getD k default).capR (w.prioOf pid) k with
+        match mkA w [r] 1 (w.pools.getD k default).capR (w.prioOf (w.store.pidOf r)) k with
         | .error e => .error e
         | .ok (w', a) => assign fails w' rest (avail.set k (avail.getD k 0 - 1)) (acc ++ [a])
 
@@ -47,9 +46,8 @@ def round (w : World) (st : St) (results : List Res) (newP : List Nat) : Except 
   match touched w results newP with
   | .error e => .error (e, w)
   | .ok pids =>
-    let fails := countFails w results st.fails
-    match assign fails w (enqueue w st.opq pids) (w.pools.map (·.availC)) [] with
+    match assign (countFails w results st.fails) w (enqueue w st.opq pids) (w.pools.map (·.availC)) [] with
     | .error e => .error e
-    | .ok (w', opq', asgs) => .ok (w', { opq := opq', fails := fails }, { asgs := asgs })
+    | .ok (w', opq', asgs) => .ok (w', { opq := opq', fails := countFails w results st.fails }, { asgs := asgs })
 
 end Eudoxia.Overbook
